@@ -170,8 +170,9 @@ def stepLtcp (st : St) (ws : List String) : St × String :=
     | none => (st, "bad-op")
     | some l =>
       match transportFlow l with
-      | .ok f => (st, "ok " ++ f.typ ++ " " ++ hexOfBytes f.src ++ ">" ++ hexOfBytes f.dst ++ " rev " ++
-                        hexOfBytes f.reverse.src ++ ">" ++ hexOfBytes f.reverse.dst)
+      | .ok f => (st, "ok " ++ toString f.typ ++ " " ++ hexOfBytes f.srcBytes ++ ">" ++ hexOfBytes f.dstBytes ++
+                        " rev " ++ hexOfBytes f.reverse.srcBytes ++ ">" ++ hexOfBytes f.reverse.dstBytes ++
+                        " hash=" ++ toString f.fastHash ++ " rhash=" ++ toString f.reverse.fastHash)
       | .err _ => (st, "err")
       | .panic k => (st, showPanic k)
   | ["ltcp", "nlt"] =>
